@@ -60,6 +60,7 @@ type ldResult struct {
 var ldPoints = map[string]bool{
 	"get.afterLookup": true, "ld.enter": true, "ld.exit": true, "ld.beforeInstall": true, "ld.afterInstall": true,
 	"set.afterCompute": true, "inv.afterCompute": true, "cmp.afterCompute": true, "ev.beforeDelete": true, "db.enter": true,
+	"cp.lock": true,
 }
 
 var errLdScripted = errors.New("verif: scripted failure")
